@@ -11,6 +11,7 @@ use std::fmt::Write as _;
 pub enum Ity {
     U8,
     U32,
+    I32, // i32: the bit pattern of a u32; `+` is checked as a signed addition
     U64,
     Usz,
 }
@@ -18,7 +19,7 @@ impl Ity {
     fn coq(self) -> &'static str {
         match self {
             Ity::U8 => "U8",
-            Ity::U32 => "U32",
+            Ity::U32 | Ity::I32 => "U32",
             Ity::U64 => "U64",
             Ity::Usz => "USZ",
         }
@@ -26,7 +27,7 @@ impl Ity {
     fn bits(self) -> u32 {
         match self {
             Ity::U8 => 8,
-            Ity::U32 => 32,
+            Ity::U32 | Ity::I32 => 32,
             Ity::U64 | Ity::Usz => 64,
         }
     }
@@ -37,7 +38,7 @@ impl Ity {
             "u64" => Some(Ity::U64),
             "usize" => Some(Ity::Usz),
             // signed integers are their bit patterns (only casts and from_le_bytes produce them in the translated code)
-            "i32" => Some(Ity::U32),
+            "i32" => Some(Ity::I32),
             "i64" => Some(Ity::U64),
             _ => None,
         }
@@ -189,6 +190,12 @@ pub struct Multi {
     pub wrap_traits: HashMap<(String, String), String>, // (Trait, method) -> qualified name
     pub wrap_mut: std::collections::HashSet<String>,  // qualified names of wrapper methods taking &mut self
     pub foreign: Option<Foreign>,
+    pub prim_prefix: String,                          // "wasm32::" (paths written out) or "neon::" (intrinsics imported with a glob)
+    pub from_impls: HashMap<String, String>,          // argument type of an `impl From<T>` -> qualified name (when there are several)
+    pub ret_raw: HashMap<String, String>,             // qualified function name -> declared return type, as written
+    pub inner_ty: String,                             // the type wrapped by the tuple struct
+    pub mod_prefix: String,                           // "" or "aarch64::": prefix of every function name of the file (its module path)
+    pub take_ok: bool,                                // the file has `fn take<const N: usize>(data: &[u8]) -> [u8; N]` with the known body
 }
 
 /// another translated type whose methods a SIMD file calls on a temporary / freshly constructed object (PortableHash)
@@ -275,6 +282,8 @@ struct Cx<'a> {
     zips: HashMap<String, (String, String, String, String)>, // let z = dst[dlo..].iter_mut().zip(&src[slo..])
     ret_arr: bool,    // the function returns an array: `return e;` and the tail assign the variable %ret
     ret_scalar: Option<Ity>, // the function returns an integer and contains `return`: results go through %ret
+    vtypes: HashMap<String, String>,             // written types of local vector variables
+    ptr_alias: HashMap<String, (String, usize)>, // let ptr = a.as_ptr(): (array, byte offset)
 }
 
 impl<'a> Cx<'a> {
@@ -417,6 +426,12 @@ impl<'a> Cx<'a> {
                 if let (Some((a, t)), Some(i)) = (self.array_name(&ix.expr), self.idx(&ix.index)) {
                     return (format!("(EIdx {} {})", q(&a), i), Some(t));
                 }
+                // <array-valued call>[k]
+                if self.multi.is_some() && matches!(Self::peel(&ix.expr), syn::Expr::MethodCall(_) | syn::Expr::Call(_)) {
+                    if let (Some((a, t)), Some(i)) = (self.array_call(&ix.expr), self.idx(&ix.index)) {
+                        return (format!("(EIdx {} {})", q(&a), i), Some(t));
+                    }
+                }
                 // a[<computed usize>]
                 if let Some((a, t)) = self.array_name(&ix.expr) {
                     if !matches!(&*ix.index, syn::Expr::Range(_)) {
@@ -445,6 +460,8 @@ impl<'a> Cx<'a> {
                             BitAnd(_) => format!("(EAnd {} {})", l, r),
                             BitOr(_) => format!("(EOr {} {})", l, r),
                             BitXor(_) => format!("(EXor {} {})", l, r),
+                            Add(_) if t == Ity::I32 => format!("(EAddS32 {} {})", l, r),
+                            Sub(_) if t == Ity::I32 => return Self::unsupported(e),
                             Add(_) => format!("(EAdd {} {} {})", t.coq(), l, r),
                             Rem(_) => format!("(ERem {} {})", l, r),
                             _ => format!("(ESub {} {} {})", t.coq(), l, r),
@@ -537,9 +554,9 @@ impl<'a> Cx<'a> {
                     None => Self::unsupported(e),
                 }
             }
-            syn::Expr::Call(c) if self.multi.is_some() && toks(&c.func).replace(' ', "").starts_with("wasm32::") => {
+            syn::Expr::Call(c) if self.multi.is_some() && self.prim_of(c).map(|pn| pn.contains("extract_lane")).unwrap_or(false) => {
                 // a scalar-valued SIMD primitive of vector arguments
-                let name = toks(&c.func).replace(' ', "");
+                let name = self.prim_of(c).unwrap();
                 let mut vs = Vec::new();
                 for a in &c.args {
                     if !self.is_vec(a) {
@@ -585,6 +602,14 @@ impl<'a> Cx<'a> {
                 // u64::from(x)
                 if let syn::Expr::Path(p) = &*c.func {
                     let segs: Vec<String> = p.path.segments.iter().map(|s| s.ident.to_string()).collect();
+                    // uN::from_le_bytes(<array-valued call>), e.g. take::<8>(bytes)
+                    if segs.len() == 2 && segs[1] == "from_le_bytes" && c.args.len() == 1 && !matches!(&c.args[0], syn::Expr::Array(_)) {
+                        if let (Some(to), Some((a, Ity::U8))) = (Ity::of_name(&segs[0]), self.array_call(&c.args[0])) {
+                            if self.lens.get(&a).map(|n| *n as u32 * 8 == to.bits()).unwrap_or(false) {
+                                return (format!("(EFromLe {} {})", q(&a), to.bits() / 8), Some(to));
+                            }
+                        }
+                    }
                     // uN::from_le_bytes([a[0], a[1], .., a[n-1]])
                     if segs.len() == 2 && segs[1] == "from_le_bytes" && c.args.len() == 1 {
                         if let (Some(to), syn::Expr::Array(arr)) = (Ity::of_name(&segs[0]), &c.args[0]) {
@@ -738,12 +763,23 @@ impl<'a> Cx<'a> {
             self.vars.insert(tmp.clone(), Ty::Arr(t));
             return Some((tmp, t));
         }
+        let e = Self::peel(e);
         let e = match e {
-            syn::Expr::Reference(r) => &*r.expr,
-            syn::Expr::Paren(p) => &*p.expr,
+            syn::Expr::Reference(r) => Self::peel(&r.expr),
             _ => e,
         };
         match e {
+            // take::<N>(x): debug_assert!(x.len() >= N), then an unchecked read of N bytes
+            syn::Expr::Call(c) if self.multi.map(|m| m.take_ok).unwrap_or(false) && toks(&c.func).replace(' ', "").starts_with("take::<") && c.args.len() == 1 => {
+                let t = toks(&c.func).replace(' ', "");
+                let n: usize = t.trim_start_matches("take::<").trim_end_matches('>').parse().ok()?;
+                let (a, _) = self.array_name(&c.args[0])?;
+                let tmp = self.fresh("k");
+                self.pre.push(format!("SLetTake {} {} {}%nat", q(&tmp), q(&a), n));
+                self.vars.insert(tmp.clone(), Ty::Arr(Ity::U8));
+                self.lens.insert(tmp.clone(), n);
+                Some((tmp, Ity::U8))
+            }
             syn::Expr::Call(c) => {
                 let name = self.assoc_call(c)?;
                 let args: Vec<&syn::Expr> = c.args.iter().collect();
@@ -965,10 +1001,102 @@ impl<'a> Cx<'a> {
     }
 
     // ------------------------------------------------------------------ vectors (SIMD backend files)
+    /// strip `unsafe { e }`, parentheses and references around a single expression
+    fn peel<'e>(e: &'e syn::Expr) -> &'e syn::Expr {
+        match e {
+            syn::Expr::Unsafe(u) if u.block.stmts.len() == 1 => match &u.block.stmts[0] {
+                syn::Stmt::Expr(x, None) => Self::peel(x),
+                _ => e,
+            },
+            syn::Expr::Paren(p) => Self::peel(&p.expr),
+            syn::Expr::Group(p) => Self::peel(&p.expr),
+            _ => e,
+        }
+    }
+
+    /// the name of the SIMD primitive a call refers to: a `wasm32::..` path, or (NEON: intrinsics glob-imported) a bare name that is
+    /// not a function of the file
+    fn prim_of(&self, c: &syn::ExprCall) -> Option<String> {
+        let m = self.multi?;
+        let t = toks(&c.func).replace(' ', "");
+        if m.prim_prefix == "wasm32::" {
+            return if t.starts_with("wasm32::") { Some(t) } else { None };
+        }
+        if let syn::Expr::Path(p) = &*c.func {
+            if p.path.segments.len() == 1 && !self.sigs.contains_key(&t) && !self.sigs.contains_key(&format!("{}{}", m.mod_prefix, t)) && t.starts_with('v') && t != "vec" {
+                return Some(format!("{}{}", m.prim_prefix, t));
+            }
+        }
+        None
+    }
+
+    /// result type of a NEON intrinsic, read off its name (vreinterpretq_A_B -> A; narrowing / widening ones listed)
+    fn neon_ret(name: &str) -> Option<String> {
+        let n = name.strip_prefix("neon::")?;
+        let el = |s: &str| -> Option<String> {
+            Some(match s {
+                "u8" => "uint8x16_t",
+                "u16" => "uint16x8_t",
+                "u32" => "uint32x4_t",
+                "s32" => "int32x4_t",
+                "u64" => "uint64x2_t",
+                _ => return None,
+            }
+            .to_string())
+        };
+        if let Some(rest) = n.strip_prefix("vreinterpretq_") {
+            return el(rest.split('_').next()?);
+        }
+        match n {
+            "vmovn_u64" | "vshrn_n_u64" => return Some("uint32x2_t".into()),
+            "vmull_u32" => return Some("uint64x2_t".into()),
+            _ => {}
+        }
+        el(n.rsplit('_').next()?)
+    }
+
+    /// the written type of a vector-valued expression, where it can be told (needed to pick among several `impl From<T>`)
+    fn vty(&self, e: &syn::Expr) -> Option<String> {
+        let m = self.multi?;
+        let e = Self::peel(e);
+        match e {
+            syn::Expr::Reference(r) => self.vty(&r.expr),
+            syn::Expr::Unary(u) if matches!(u.op, syn::UnOp::Deref(_)) => self.vty(&u.expr),
+            syn::Expr::Field(f) if matches!(&f.member, syn::Member::Unnamed(i) if i.index == 0) => Some(m.inner_ty.clone()),
+            syn::Expr::Path(p) if p.path.segments.len() == 1 => self.vtypes.get(&p.path.segments[0].ident.to_string()).cloned(),
+            syn::Expr::Call(c) => {
+                if let Some(pn) = self.prim_of(c) {
+                    return Self::neon_ret(&pn);
+                }
+                let qn = self.callee_of_call(c)?;
+                m.ret_raw.get(&qn).cloned()
+            }
+            _ => None,
+        }
+    }
+
+    /// `X.as_ptr()`, `X.as_mut_ptr()`, a pointer variable, `<ptr>.offset(k)` / `.add(k)`: (array, byte offset)
+    fn ptr_of(&self, e: &syn::Expr) -> Option<(String, usize)> {
+        let e = Self::peel(e);
+        match e {
+            syn::Expr::Path(p) if p.path.segments.len() == 1 => self.ptr_alias.get(&p.path.segments[0].ident.to_string()).cloned(),
+            syn::Expr::MethodCall(mc) if (mc.method == "as_ptr" || mc.method == "as_mut_ptr") && mc.args.is_empty() => {
+                let (a, _) = self.array_name(&mc.receiver)?;
+                Some((a, 0))
+            }
+            syn::Expr::MethodCall(mc) if (mc.method == "offset" || mc.method == "add") && mc.args.len() == 1 => {
+                let (a, o) = self.ptr_of(&mc.receiver)?;
+                let (k, _) = Self::lit(&mc.args[0])?;
+                Some((a, o + k as usize))
+            }
+            _ => None,
+        }
+    }
+
     fn qual(&self, owner: Owner, name: &str) -> String {
         match (self.multi, owner) {
-            (Some(m), Owner::Hash) => format!("{}::{}", m.hash_ty, name),
-            (Some(m), Owner::Wrap) => format!("{}::{}", m.wrap_ty, name),
+            (Some(m), Owner::Hash) => format!("{}{}::{}", m.mod_prefix, m.hash_ty, name),
+            (Some(m), Owner::Wrap) => format!("{}{}::{}", m.mod_prefix, m.wrap_ty, name),
             _ => name.to_string(),
         }
     }
@@ -976,6 +1104,7 @@ impl<'a> Cx<'a> {
     fn vec_place(&self, e: &syn::Expr) -> Option<String> {
         // a vector-valued place: local vector, self.<vector field>, `self` / `self.0` inside the wrapper, aliases, x.0, *x
         let m = self.multi?;
+        let e = Self::peel(e);
         match e {
             syn::Expr::Paren(p) => self.vec_place(&p.expr),
             syn::Expr::Group(p) => self.vec_place(&p.expr),
@@ -1016,6 +1145,7 @@ impl<'a> Cx<'a> {
         if self.vec_place(e).is_some() {
             return true;
         }
+        let e = Self::peel(e);
         match e {
             syn::Expr::Paren(p) => self.is_vec(&p.expr),
             syn::Expr::Reference(r) => self.is_vec(&r.expr),
@@ -1028,7 +1158,7 @@ impl<'a> Cx<'a> {
                     return true;
                 }
                 self.callee_of_call(c).and_then(|n| self.sigs.get(&n).map(|s| s.ret == Ty::Vec)).unwrap_or(false)
-                    || (t.starts_with("wasm32::") && !t.contains("extract_lane"))
+                    || self.prim_of(c).map(|pn| !pn.contains("extract_lane") && !pn.starts_with("neon::vst1")).unwrap_or(false)
             }
             syn::Expr::MethodCall(mc) => {
                 if self.is_vec(&mc.receiver) {
@@ -1047,6 +1177,10 @@ impl<'a> Cx<'a> {
         if let syn::Expr::Path(p) = &*c.func {
             let segs: Vec<String> = p.path.segments.iter().map(|s| s.ident.to_string()).collect();
             if segs.len() == 1 {
+                let pn = format!("{}{}", m.mod_prefix, segs[0]);
+                if self.sigs.contains_key(&pn) {
+                    return Some(pn);
+                }
                 return if self.sigs.contains_key(&segs[0]) { Some(segs[0].clone()) } else { None };
             }
             if segs.len() == 2 {
@@ -1099,6 +1233,7 @@ impl<'a> Cx<'a> {
         if let Some(p) = self.vec_place(e) {
             return format!("(XV {})", q(&p));
         }
+        let e = Self::peel(e);
         match e {
             syn::Expr::Paren(p) => self.vx(&p.expr),
             syn::Expr::Group(p) => self.vx(&p.expr),
@@ -1131,6 +1266,17 @@ impl<'a> Cx<'a> {
                 if t == m.wrap_ty && c.args.len() == 1 {
                     return self.vx(&c.args[0]);
                 }
+                if (t == format!("{}::from", m.wrap_ty) || t == "Self::from") && c.args.len() == 1 && !m.from_impls.is_empty() {
+                    // several `impl From<T>`: the one for the written type of the argument
+                    return match self.vty(&c.args[0]).and_then(|ty| m.from_impls.get(&ty).cloned()) {
+                        Some(qn) => {
+                            let a = self.vx(&c.args[0]);
+                            let tmp = self.vec_call_tmp(&qn, vec![format!("AVec {}", a)]);
+                            format!("(XV {})", q(&tmp))
+                        }
+                        None => format!("(XPrim {} [] [])", q(&format!("unsupported (type of the argument of from unknown): {}", toks(e)))),
+                    };
+                }
                 if (t == format!("{}::from", m.wrap_ty) || t == "Self::from") && c.args.len() == 1 {
                     return match m.wrap_traits.get(&("From".to_string(), "from".to_string())).cloned() {
                         Some(qn) => {
@@ -1141,7 +1287,26 @@ impl<'a> Cx<'a> {
                         None => format!("(XPrim {} [] [])", q(&format!("unsupported: {}", toks(e)))),
                     };
                 }
-                if t.starts_with("wasm32::") {
+                if let Some(pn) = self.prim_of(c) {
+                    // 16-byte load through a pointer into a byte array / 2-lane load from an array literal
+                    if pn == "neon::vld1q_u8" && c.args.len() == 1 {
+                        return match self.ptr_of(&c.args[0]) {
+                            Some((a, off)) => format!("(XLoad16 {} {}%nat)", q(&a), off),
+                            None => format!("(XPrim {} [] [])", q(&format!("unsupported load: {}", toks(e)))),
+                        };
+                    }
+                    if pn == "neon::vld1q_u64" && c.args.len() == 1 {
+                        if let syn::Expr::MethodCall(mc) = Self::peel(&c.args[0]) {
+                            if let (true, syn::Expr::Array(arr)) = (mc.method == "as_ptr", Self::peel(&mc.receiver)) {
+                                if arr.elems.len() == 2 {
+                                    let ss: Vec<String> = arr.elems.iter().map(|x| self.satom(x)).collect();
+                                    return format!("(XPrim \"neon::vld1q_u64::array\" [] [{}])", ss.join("; "));
+                                }
+                            }
+                        }
+                        return format!("(XPrim {} [] [])", q(&format!("unsupported load: {}", toks(e))));
+                    }
+                    let t = pn;
                     let mut vs = Vec::new();
                     let mut ss = Vec::new();
                     for a in &c.args {
@@ -1327,7 +1492,7 @@ impl<'a> Cx<'a> {
                         // a value-less tail (for / if / call returning unit) is a statement
                         if matches!(e, syn::Expr::ForLoop(_) | syn::Expr::If(_)) {
                             self.stmt_expr(e, out);
-                        } else if self.multi.is_some() && matches!(e, syn::Expr::Assign(_) | syn::Expr::MethodCall(_)) && self.stmt_vec(e, out) {
+                        } else if self.multi.is_some() && matches!(Self::peel(e), syn::Expr::Assign(_) | syn::Expr::MethodCall(_)) && !self.returns_array_call(e) && self.stmt_vec(Self::peel(e), out) {
                             // a unit-valued tail:  self.0 = ..  /  self.add_assign(other)
                         } else {
                             return Some(self.ret(e, out));
@@ -1411,10 +1576,27 @@ impl<'a> Cx<'a> {
         Some(format!("RVarArr {}", q(&tmp)))
     }
 
+    /// is the expression a method call on a vector whose result is an array (as_arr)?
+    fn returns_array_call(&self, e: &syn::Expr) -> bool {
+        if let syn::Expr::MethodCall(mc) = Self::peel(e) {
+            if self.is_vec(&mc.receiver) {
+                let qn = self.qual(Owner::Wrap, &mc.method.to_string());
+                return matches!(self.sigs.get(&qn).map(|s| &s.ret), Some(Ty::Arr(_)));
+            }
+        }
+        false
+    }
+
     fn ret(&mut self, e: &syn::Expr, out: &mut Vec<String>) -> String {
         if self.multi.is_some() {
             if let Some(r) = self.foreign_literal_call(e, out) {
                 return r;
+            }
+            if self.returns_array_call(e) {
+                if let Some((a, _)) = self.array_call(e) {
+                    out.append(&mut self.pre);
+                    return format!("RVarArr {}", q(&a));
+                }
             }
         }
         if self.multi.is_some() {
@@ -1842,7 +2024,16 @@ impl<'a> Cx<'a> {
                 }
             }
         }
+        if let Some(pa) = self.ptr_of(init) {
+            if matches!(Self::peel(init), syn::Expr::MethodCall(_)) {
+                self.ptr_alias.insert(name.to_string(), pa);
+                return true;
+            }
+        }
         if self.is_vec(init) {
+            if let Some(t) = self.vty(init) {
+                self.vtypes.insert(name.to_string(), t);
+            }
             let v = self.vx(init);
             self.vvars.insert(name.to_string());
             let st = format!("SLetV {} {}", q(name), v);
@@ -1873,6 +2064,15 @@ impl<'a> Cx<'a> {
                 }
             }
         }
+        // let x = <vector>.as_arr();
+        if self.returns_array_call(init) {
+            if let Some((a, t)) = self.array_call(init) {
+                self.vars.insert(name.to_string(), Ty::Arr(t));
+                let st = format!("SCopyArr {} {}", q(name), q(&a));
+                self.flush(out, st);
+                return true;
+            }
+        }
         // let mut d = <array / slice variable>;
         if let syn::Expr::Path(_) = init {
             if let Some((a, t)) = self.array_name(init) {
@@ -1898,6 +2098,21 @@ impl<'a> Cx<'a> {
             None => return false,
         };
         match e {
+            syn::Expr::Unsafe(u) => {
+                self.stmts_plain(&u.block.stmts, out);
+                true
+            }
+            syn::Expr::Call(c) if self.prim_of(c).map(|pn| pn == "neon::vst1q_u64").unwrap_or(false) && c.args.len() == 2 => {
+                match self.ptr_of(&c.args[0]) {
+                    Some((a, 0)) => {
+                        let v = self.vx(&c.args[1]);
+                        let st = format!("SStoreLanes {} {}", q(&a), v);
+                        self.flush(out, st);
+                    }
+                    _ => out.push(format!("SUnsupported {}", q(&toks(e)))),
+                }
+                true
+            }
             syn::Expr::Assign(a) => {
                 if let Some(p) = self.vec_place(&a.left) {
                     let v = self.vx(&a.right);
@@ -2451,7 +2666,7 @@ pub fn translate(file: &syn::File, rel: &str, self_ty: &str, wanted: &[&str], fr
         let dup = bodies.iter().filter(|f| f.sig.ident == w).count() > 1;
         let mut cfgs = if free.contains(w) { cfg_inside(&[], f.block) } else { cfg_inside(f.attrs, f.block) };
         cfgs.extend(impl_cfgs.get(*w).cloned().unwrap_or_default());
-        let mut cx = Cx { self_ty, sigs: &sigs, fields: &fields, sfields: &sfields, consts: &consts, ret_opt: false, multi: None, owner: Owner::Hash, vvars: Default::default(), tupvars: Default::default(), vec_alias: HashMap::new(), ret_tupv: false, valias: HashMap::new(), arr_alias: HashMap::new(), self_alias: None, sub: &sub, chunks: HashMap::new(), vars: HashMap::new(), lens: HashMap::new(), alias: HashMap::new(), tmp: 0, pre: Vec::new(), views: std::collections::HashSet::new(), zips: HashMap::new(), ret_arr: false, ret_scalar: None };
+        let mut cx = Cx { self_ty, sigs: &sigs, fields: &fields, sfields: &sfields, consts: &consts, ret_opt: false, multi: None, owner: Owner::Hash, vvars: Default::default(), tupvars: Default::default(), vec_alias: HashMap::new(), ret_tupv: false, valias: HashMap::new(), arr_alias: HashMap::new(), self_alias: None, sub: &sub, chunks: HashMap::new(), vars: HashMap::new(), lens: HashMap::new(), alias: HashMap::new(), tmp: 0, pre: Vec::new(), views: std::collections::HashSet::new(), zips: HashMap::new(), ret_arr: false, ret_scalar: None, vtypes: HashMap::new(), ptr_alias: HashMap::new() };
         let mut params = Vec::new();
         let mut body: Vec<String> = Vec::new();
         match sig {
@@ -2525,7 +2740,7 @@ struct MFn<'a> {
 
 /// Translate a SIMD backend file (hasher struct + vector wrapper type + free helper functions) into RustLite.
 /// Functions are keyed by qualified names: "<Hash>::f", "<Wrap>::f", "<Wrap>::<Trait>::f", "f".
-pub fn translate_multi(file: &syn::File, rel: &str, hash_ty: &str, wrap_ty: &str, raw_tys: &[&str], wanted_hash: &[&str], skip_wrap: &[&str], externals: &[&str], ext_file: Option<&syn::File>, foreign: Option<(Foreign, &[(&str, &[(&str, usize)], Option<usize>)])>, consts_in: &[(&str, u128)], listname: &str, sub: Option<SubObj>) -> String {
+pub fn translate_multi(file: &syn::File, rel: &str, mod_prefix: &str, prim_prefix: &str, hash_ty: &str, wrap_ty: &str, raw_tys: &[&str], wanted_hash: &[&str], skip_wrap: &[&str], externals: &[&str], ext_file: Option<&syn::File>, foreign: Option<(Foreign, &[(&str, &[(&str, usize)], Option<usize>)])>, consts_in: &[(&str, u128)], listname: &str, sub: Option<SubObj>) -> String {
     let consts: HashMap<String, u128> = consts_in.iter().map(|(k, v)| (k.to_string(), *v)).collect();
     let set_vec_tys = |with_self: bool| {
         VEC_TYS.with(|v| {
@@ -2554,12 +2769,41 @@ pub fn translate_multi(file: &syn::File, rel: &str, hash_ty: &str, wrap_ty: &str
             }
         }
     }
+    // how many `impl From<T> for <wrapper>`; the wrapped type; the unchecked-read helper `take`
+    let mut n_from = 0;
+    let mut inner_ty = String::new();
+    let mut take_ok = false;
+    for it in &file.items {
+        match it {
+            syn::Item::Impl(im) if toks(&im.self_ty) == wrap_ty => {
+                if let Some((_, p, _)) = &im.trait_ {
+                    if p.segments.last().map(|s| s.ident == "From").unwrap_or(false) {
+                        n_from += 1;
+                    }
+                }
+            }
+            syn::Item::Struct(st) if st.ident == wrap_ty => {
+                if let Some(f) = st.fields.iter().next() {
+                    inner_ty = toks(&f.ty).replace(' ', "");
+                }
+            }
+            syn::Item::Fn(f) if f.sig.ident == "take" => {
+                take_ok = format!("{} {}", toks(&f.sig), toks(&f.block))
+                    == "fn take < const N : usize > (data : & [u8]) -> [u8 ; N] { debug_assert ! (data . len () >= N) ; unsafe { * (data . as_ptr () as * const [u8 ; N]) } }";
+            }
+            _ => {}
+        }
+    }
+    let mut from_impls: HashMap<String, String> = HashMap::new();
+    let mut ret_raw: HashMap<String, String> = HashMap::new();
     // every function of the file
     let mut fns: Vec<MFn> = Vec::new();
     let mut wrap_traits: HashMap<(String, String), String> = HashMap::new();
     for it in &file.items {
         match it {
-            syn::Item::Fn(f) => fns.push(MFn { qname: f.sig.ident.to_string(), owner: Owner::Free, f_sig: &f.sig, attrs: &f.attrs, block: &f.block, impl_cfgs: Vec::new() }),
+            syn::Item::Fn(f) if f.attrs.iter().any(|a| a.path().is_ident("cfg") && a.meta.to_token_stream().to_string().replace(' ', "") == "cfg(highway_verif)") => {} // hook: absent with the guard off
+            syn::Item::Fn(f) if f.sig.ident == "take" && take_ok => {} // read as the statement SLetTake at its call sites
+            syn::Item::Fn(f) => fns.push(MFn { qname: format!("{}{}", mod_prefix, f.sig.ident), owner: Owner::Free, f_sig: &f.sig, attrs: &f.attrs, block: &f.block, impl_cfgs: Vec::new() }),
             syn::Item::Impl(im) => {
                 let st = toks(&im.self_ty);
                 let owner = if st == hash_ty {
@@ -2575,18 +2819,29 @@ pub fn translate_multi(file: &syn::File, rel: &str, hash_ty: &str, wrap_ty: &str
                     if let syn::ImplItem::Fn(f) = ii {
                         let name = f.sig.ident.to_string();
                         let qname = match (&tr, owner) {
-                            (None, Owner::Hash) => format!("{}::{}", hash_ty, name),
-                            (None, _) => format!("{}::{}", wrap_ty, name),
+                            (None, Owner::Hash) => format!("{}{}::{}", mod_prefix, hash_ty, name),
+                            (None, _) => format!("{}{}::{}", mod_prefix, wrap_ty, name),
                             // the trait impls of the hasher forward to the inherent functions (FactsC05) — except checkpoint, written in the impl
-                            (Some(t), Owner::Hash) if t == "HighwayHash" && name == "checkpoint" => format!("{}::{}", hash_ty, name),
+                            (Some(t), Owner::Hash) if t == "HighwayHash" && name == "checkpoint" => format!("{}{}::{}", mod_prefix, hash_ty, name),
                             (Some(_), Owner::Hash) => continue,
                             (Some(t), _) => {
                                 if skip_wrap.contains(&t.as_str()) {
                                     continue;
                                 }
-                                let qn = format!("{}::{}::{}", wrap_ty, t, name);
-                                wrap_traits.insert((t.clone(), name.clone()), qn.clone());
-                                qn
+                                if t == "From" && n_from > 1 {
+                                    // several From impls: named by the argument type
+                                    let arg = im.trait_.as_ref().and_then(|(_, p, _)| p.segments.last()).map(|sg| match &sg.arguments {
+                                        syn::PathArguments::AngleBracketed(a) => toks(&a.args).replace(' ', ""),
+                                        _ => String::new(),
+                                    }).unwrap_or_default();
+                                    let qn = format!("{}{}::From<{}>::{}", mod_prefix, wrap_ty, arg, name);
+                                    from_impls.insert(arg, qn.clone());
+                                    qn
+                                } else {
+                                    let qn = format!("{}{}::{}::{}", mod_prefix, wrap_ty, t, name);
+                                    wrap_traits.insert((t.clone(), name.clone()), qn.clone());
+                                    qn
+                                }
                             }
                         };
                         if owner == Owner::Hash && !wanted_hash.contains(&name.as_str()) {
@@ -2642,6 +2897,9 @@ pub fn translate_multi(file: &syn::File, rel: &str, hash_ty: &str, wrap_ty: &str
                     k += 1;
                 }
             }
+        }
+        if let syn::ReturnType::Type(_, t) = &mf.f_sig.output {
+            ret_raw.insert(mf.qname.clone(), toks(t).replace(' ', ""));
         }
         let ret = match &mf.f_sig.output {
             syn::ReturnType::Default => Some(Ty::Unit),
@@ -2699,7 +2957,7 @@ pub fn translate_multi(file: &syn::File, rel: &str, hash_ty: &str, wrap_ty: &str
         }
         foreign_desc = Some(fo);
     }
-    let multi = Multi { hash_ty: hash_ty.to_string(), wrap_ty: wrap_ty.to_string(), vfields, wrap_traits, wrap_mut, foreign: foreign_desc };
+    let multi = Multi { hash_ty: hash_ty.to_string(), wrap_ty: wrap_ty.to_string(), vfields, wrap_traits, wrap_mut, foreign: foreign_desc, prim_prefix: prim_prefix.to_string(), mod_prefix: mod_prefix.to_string(), from_impls, ret_raw, inner_ty, take_ok };
     let fields: HashMap<String, (Ity, usize)> = HashMap::new();
     let sfields: HashMap<String, Ity> = HashMap::new();
     let mut out = String::new();
@@ -2707,16 +2965,16 @@ pub fn translate_multi(file: &syn::File, rel: &str, hash_ty: &str, wrap_ty: &str
     let _ = writeln!(out, "From Coq Require Import String List NArith.\nFrom HW Require Import Word.\nFrom HW.Facts Require Import RustLite.\nImport ListNotations.\nLocal Open Scope string_scope.\nLocal Open Scope N_scope.\n");
     let mut names: Vec<(String, String)> = Vec::new();
     for w in wanted_hash {
-        let qn = format!("{}::{}", hash_ty, w);
+        let qn = format!("{}{}::{}", mod_prefix, hash_ty, w);
         if !fns.iter().any(|f| f.qname == qn) {
-            let dn = format!("{}_{}", listname, qn.replace("::", "_"));
+            let dn = format!("{}_{}", listname, qn.trim_start_matches(mod_prefix).replace("::", "_"));
             let _ = writeln!(out, "Definition {} : fndef := {{| f_params := []; f_body := [SUnsupported \"function not found\"]; f_ret := RNone |}}.\n", dn);
             names.push((qn, dn));
         }
     }
     let mut seen = std::collections::HashSet::new();
     for mf in &fns {
-        let dn = format!("{}_{}", listname, mf.qname.replace("::", "_"));
+        let dn = format!("{}_{}", listname, mf.qname.trim_start_matches(mod_prefix).replace("::", "_").replace('<', "_").replace('>', ""));
         let dup = fns.iter().filter(|f| f.qname == mf.qname).count() > 1;
         if !seen.insert(mf.qname.clone()) {
             continue;
@@ -2726,7 +2984,7 @@ pub fn translate_multi(file: &syn::File, rel: &str, hash_ty: &str, wrap_ty: &str
         let mut cfgs = cfg_inside(mf.attrs, mf.block);
         cfgs.extend(mf.impl_cfgs.iter().cloned());
         let self_ty = if mf.owner == Owner::Wrap { wrap_ty } else { hash_ty };
-        let mut cx = Cx { self_ty, sigs: &sigs, fields: &fields, sfields: &sfields, consts: &consts, ret_opt: false, multi: Some(&multi), owner: mf.owner, vvars: Default::default(), tupvars: Default::default(), vec_alias: HashMap::new(), ret_tupv: false, valias: HashMap::new(), arr_alias: HashMap::new(), self_alias: None, sub: &sub, chunks: HashMap::new(), vars: HashMap::new(), lens: HashMap::new(), alias: HashMap::new(), tmp: 0, pre: Vec::new(), views: std::collections::HashSet::new(), zips: HashMap::new(), ret_arr: false, ret_scalar: None };
+        let mut cx = Cx { self_ty, sigs: &sigs, fields: &fields, sfields: &sfields, consts: &consts, ret_opt: false, multi: Some(&multi), owner: mf.owner, vvars: Default::default(), tupvars: Default::default(), vec_alias: HashMap::new(), ret_tupv: false, valias: HashMap::new(), arr_alias: HashMap::new(), self_alias: None, sub: &sub, chunks: HashMap::new(), vars: HashMap::new(), lens: HashMap::new(), alias: HashMap::new(), tmp: 0, pre: Vec::new(), views: std::collections::HashSet::new(), zips: HashMap::new(), ret_arr: false, ret_scalar: None, vtypes: HashMap::new(), ptr_alias: HashMap::new() };
         let mut params = Vec::new();
         let mut body: Vec<String> = Vec::new();
         match sig {
